@@ -52,6 +52,41 @@ CLAIMS = {
                  'with the source attributes; the complete observable state of the source must be unchanged; nested '
                  'slices must equal the slice by the intersection; the slice then lives on as a replica under the '
                  'C03/C04/C05 invariants while the history continues on it.'),
+    'C09': claim('fault_enumeration', 'DESIGN.md 7/C09',
+                 'deterministic simulation: restart through a simulated disk (SimFS) with enumerated write/read/close faults',
+                 'At seeded points of a history the graph is persisted with write_snapshots to a simulated disk (plain, '
+                 '.gz, .gzip, .bz2 paths, BytesIO, caller-opened handle, duck-typed object; drawn delimiter, encoding, '
+                 'buffer size, short reads/writes), the bytes on disk at return must decode to exactly one row per '
+                 'interaction and instant, library-opened handles must be closed and caller handles left open, the '
+                 'object is dropped and rebuilt with read_snapshots from the durable bytes only, compared with the '
+                 'model, and keeps being mutated under C03/C04/C05. For every successful restart the same history '
+                 'is re-run with the k-th raw write failing (every k), the k-th raw read failing (every k) and the '
+                 'close failing: a write fault may surface only as OSError and a call that returns must have left a '
+                 'complete file; a read fault must raise, never return a graph built from a prefix. Four-column '
+                 'rows u v t e are checked through generated row streams.'),
+    'C10': claim('fault_enumeration', 'DESIGN.md 7/C10',
+                 'deterministic simulation: restart through SimFS with enumerated I/O faults + generated event logs',
+                 'As C09 for write_interactions/read_interactions: written rows must equal stream_interactions() in '
+                 'order; the graph read back must have the same presence and the same stream; generated well-formed '
+                 'event logs (several pairs interleaved chronologically, unclosed + allowed, noise) are fed to the '
+                 'reader and compared with the log semantics. Open finding D20 (consequence of the pinned D12a): the '
+                 'round-trip clauses are not asserted for graphs holding an unclosed two-instant run.'),
+    'C11': claim('exploration', 'DESIGN.md 7/C11',
+                 'deterministic simulation: JSON restart path on reached states (observer; no fault dimension)',
+                 'node_link_data -> json.dumps -> simulated file -> json.loads -> node_link_graph at seeded points of '
+                 'histories with attributed and isolated nodes, graph attributes, custom id key; data dict checked '
+                 'field by field (directed flag, every node with attrs, one link per interaction and instant with '
+                 'orientation), rebuilt class/nodes/attrs/presence compared with the model, the directed argument '
+                 'exercised with and without the key, and the rebuilt graph lives on under C03/C04/C05. dynetx does '
+                 'no I/O here: the simulator contributes reachable states and continuation, not faults.'),
+    'C18': claim('fault_enumeration', 'DESIGN.md 7/C18',
+                 'deterministic simulation: line-stream corruption between generated rows and the parsers; conversion failure enumerated per row',
+                 'Generated valid row lists (both formats, both classes, delimiters) are corrupted with blank, '
+                 'whitespace, comment, short, over-long rows, trailing comments and padding and parsed through '
+                 'parse_* or read_* from the simulated disk: the graph must equal the one parsed from the clean rows '
+                 '(complete observable state) and the model of those rows; a non-convertible node or timestamp at '
+                 'every row index must raise TypeError; keys=True (second open of the same path by name) must give '
+                 'the graph of the rank-substituted rows; compact_timeslot must be the rank bijection.'),
     'C16': claim('exploration', 'DESIGN.md 7/C16',
                  'deterministic simulation: conversions derived mid-history + aliasing interleaving (mutate one replica, observe the others)',
                  'to_directed / to_undirected(reciprocal or not) are applied at seeded points; presence of the result '
